@@ -371,7 +371,8 @@ pub fn record(output: &str) {
                 }
             }
         }
-        out.put(json!({"ev": "group", "case": k, "obstacle": obstacle_class, "outcomes": outcomes, "needs_rrt": any_rrt}));
+        // (the detour class needs the randomised planner already for the way to the landing pose)
+        out.put(json!({"ev": "group", "case": k, "obstacle": obstacle_class, "outcomes": outcomes, "needs_rrt": any_rrt || obstacle_class == "detour-onboarding"}));
     }
     out.finish();
 }
